@@ -23,7 +23,8 @@ Function kinds (`FnCfg.kind`); anything outside the stated shapes raises `Unsupp
   function's variables, evaluated before the loop; supplied by the plugin) is the iteration budget; it is not trusted — out of budget
   is `none`, and the obligation proves `some`.
 * `"state_local"` (`apply_obligations(payload, obligations, *, in_place) -> dict`): the local `FnCfg.state` is bound ONCE, at top level,
-  by `out = <pure expression>` (`copy.deepcopy(x)` is `deepcopy x` = `x`: a value is its own deep copy), is used only as the first
+  by `out = <pure expression>` (`copy.deepcopy(x)` is `deepcopy x` = `x`: a value is its own deep copy; a name that occurs in that
+  expression may BE the state object afterwards — `payload` with `in_place` — and must not be read again), is used only as the first
   argument of `state_param` calls (`_set_by_path(out, …)`: threads the state) and in the final `return out`.  `for x in E: body`
   without `return`/`break` → `forState (iter E) st (fun x st => body)`.
 
@@ -68,6 +69,8 @@ class CursorTranslator(pytolean.Translator):
         self.state_name: str | None = None
         self.ntmp = 0
         self.loop: str | None = None            # None | "enum" | "state" | "while"
+        self.state_aliases: set[str] = set()    # state_local: names that may denote the state object once it is bound
+        self.tmp_names: set[str] = set()
         self.cursor_declared = False
 
     # ------------------------------------------------------------------ cursor chains
@@ -148,6 +151,8 @@ class CursorTranslator(pytolean.Translator):
         if isinstance(e, ast.Name):
             if e.id in self.cursors or (e.id == self.state_name):
                 raise Unsupported(f"the cursor/state variable {e.id} used as a value")
+            if e.id in self.state_aliases:
+                raise Unsupported(f"{e.id} may alias the state (it occurs in the expression the state was bound to) and is read afterwards")
             if e.id in self.tmp_names:
                 return e.id
             return super().E(e)
@@ -287,12 +292,14 @@ class CursorTranslator(pytolean.Translator):
                 if tgt.id == self.state_name:
                     if self.kind != "state_local" or self.loop is not None or self.state_bound:
                         raise Unsupported("the state variable is bound more than once / inside a loop")
-                    self.state_bound = True
                     saved, self.state_name = self.state_name, None      # the defining expression may not mention it anyway
                     try:
                         val = self.E(v)
                     finally:
                         self.state_name = saved
+                    self.state_bound = True
+                    # whatever the defining expression mentions may BE the state object from here on (`out = payload if in_place …`)
+                    self.state_aliases = {n.id for n in ast.walk(v) if isinstance(n, ast.Name) and n.id in self.locals}
                     return f"let st := {val}\n{ind}{self.SC(rest, ind)}"
                 return f"let {ident(tgt.id)} := {self.pure(v, 'an assigned value')}\n{ind}{self.SC(rest, ind)}"
             raise Unsupported(f"assignment {ast.unparse(st)[:60]}")
@@ -413,6 +420,7 @@ class CursorTranslator(pytolean.Translator):
         self.tmp_names: set[str] = set()
         self.ntmp, self.loop, self.notes = 0, None, []
         self.cursor_declared, self.state_bound = False, False
+        self.state_aliases: set[str] = set()
         notes = list(cfg.notes)
         for x, d in zip(a.kwonlyargs, a.kw_defaults):
             if d is not None:
